@@ -572,6 +572,13 @@ class Client(ClientLike):
             header.remaining_bytes = 0
             header.reserved = 0
 
+            # a signal is a message definition too: stamp its version hash,
+            # as send_message does for an instance of the definition
+            try:
+                header.version = get_msg_cls(signal_type).type_hash
+            except (UnknownMessageType, AttributeError):
+                pass  # no definition (with a hash) known for this id
+
             self._sendall(header)  # type: ignore
 
             self._msg_count += 1
